@@ -73,7 +73,7 @@ RULE = ("cases = (a) subtrees of the history space: all op sequences (enter(call
         "distinct config states reached are counted separately")
 ASSUMPTIONS = ["copy.deepcopy and dict equality are the snapshot oracle", "ast.literal_eval is the documented value parser",
                "the global config is only touched under planted 'vf*' keys and verified unchanged after every case"]
-BUDGET = {"quick": 60, "thorough": 540}
+BUDGET = {"quick": 90, "thorough": 540}
 FLOORS = {
     "quick": {"evaluations": 1100, "distinct_nontrivial": 1100,
               "counters": {"histories": 440000, "histories_private": 415000, "histories_global": 14000, "set_calls": 1200000,
